@@ -11,6 +11,7 @@ import (
 	security "istio.io/api/security/v1beta1"
 	typev1beta1 "istio.io/api/type/v1beta1"
 	"istio.io/istio/pkg/config"
+	"istio.io/istio/pkg/config/host"
 	"istio.io/istio/pkg/config/schema/gvk"
 )
 
@@ -218,7 +219,14 @@ func pa(ns, name string, selector map[string]string, mode security.PeerAuthentic
 		if p.PortLevelMtls == nil {
 			p.PortLevelMtls = map[uint32]*security.PeerAuthentication_MutualTLS{}
 		}
-		p.PortLevelMtls[uint32(portModes[i].(int))] = &security.PeerAuthentication_MutualTLS{Mode: portModes[i+1].(security.PeerAuthentication_MutualTLS_Mode)}
+		var m security.PeerAuthentication_MutualTLS_Mode
+		switch v := portModes[i+1].(type) {
+		case int:
+			m = security.PeerAuthentication_MutualTLS_Mode(v)
+		case security.PeerAuthentication_MutualTLS_Mode:
+			m = v
+		}
+		p.PortLevelMtls[uint32(portModes[i].(int))] = &security.PeerAuthentication_MutualTLS{Mode: m}
 	}
 	return obj(gvk.PeerAuthentication, ns, name, p)
 }
@@ -262,5 +270,7 @@ func requestAuthn(ns, name string, selector map[string]string, rules ...*securit
 	}
 	return obj(gvk.RequestAuthentication, ns, name, p)
 }
+
+func hostNameOf(s string) host.Name { return host.Name(s) }
 
 func boolv(b bool) *wrapperspb.BoolValue { return wrapperspb.Bool(b) }
